@@ -1,4 +1,5 @@
 import KeepVerif.Model.C06
+import KeepVerif.Model.C06Sched
 /-!
 # C06 — Relay entry requests are processed at most once and in order
 
@@ -127,6 +128,128 @@ theorem concurrent_at_most_once (ns sched : List Notif) (hp : sched.Perm ns)
     (accepted sched).Pairwise (· < ·) ∧ (accepted sched).Nodup :=
   have hd' : ∀ n ∈ sched, 1 ≤ n.blk := fun n hn => hd n (hp.mem_iff.1 hn)
   ⟨accepted_strictly_increasing sched hd', accepted_nodup sched hd'⟩
+
+
+/-! ## Concurrency, small-step: every schedule of `Lock` / body+`Unlock` actions linearises -/
+
+theorem runFrom_append (st : St) (a b : List Notif) :
+    runFrom st (a ++ b) = runFrom st a ++ runFrom (finalFrom st a) b := by
+  induction a generalizing st with
+  | nil => rfl
+  | cons n a ih => simp [runFrom, finalFrom, ih]
+
+theorem finalFrom_append (st : St) (a b : List Notif) :
+    finalFrom st (a ++ b) = finalFrom (finalFrom st a) b := by
+  induction a generalizing st with
+  | nil => rfl
+  | cons n a ih => simp [finalFrom, ih]
+
+/-- invariant of the small-step system -/
+structure Inv (calls : List Notif) (s : Sys) : Prop where
+  st_eq : s.st = finalFrom init (order calls s)
+  outs_eq : s.outs.map (·.2) = runFrom init (order calls s)
+  done_of_out : ∀ p ∈ s.outs, s.pcs[p.1]? = some Pc.done
+  nodup : (s.outs.map (·.1)).Nodup
+  valid : ∀ p ∈ s.outs, p.1 < calls.length
+
+theorem inv_start (calls : List Notif) : Inv calls (Sys.start calls.length) :=
+  ⟨rfl, rfl, by simp [Sys.start], by simp [Sys.start], by simp [Sys.start]⟩
+
+theorem inv_step (calls : List Notif) (s : Sys) (t : Nat) (h : Inv calls s) :
+    Inv calls (sstep calls s t) := by
+  unfold sstep
+  split
+  · -- Lock
+    split
+    · refine ⟨h.st_eq, h.outs_eq, ?_, h.nodup, h.valid⟩
+      intro p hp
+      have hd := h.done_of_out p hp
+      rename_i hpc _ _
+      by_cases hpt : p.1 = t
+      · rw [hpt] at hd; rw [hd] at hpc; cases hpc
+      · simp only [List.getElem?_set]
+        simp [Ne.symm hpt, hd]
+    · exact h
+  · -- body + Unlock
+    rename_i n hpc hcall
+    split
+    · have hlt : t < calls.length := by
+        rcases Nat.lt_or_ge t calls.length with h' | h'
+        · exact h'
+        · rw [List.getElem?_eq_none h'] at hcall; cases hcall
+      have hnot : t ∉ s.outs.map (·.1) := by
+        intro hmem
+        obtain ⟨p, hp, rfl⟩ := List.mem_map.1 hmem
+        have := h.done_of_out p hp
+        rw [this] at hpc; cases hpc
+      have hord : order calls (bodyStep s t n) = order calls s ++ [n] := by
+        simp [order, bodyStep, List.filterMap_append, hcall]
+      refine ⟨?_, ?_, ?_, ?_, ?_⟩
+      · rw [hord, finalFrom_append, ← h.st_eq]; rfl
+      · rw [hord, runFrom_append, ← h.outs_eq, ← h.st_eq]
+        simp [runFrom, bodyStep]
+      · intro p hp
+        simp only [bodyStep, List.mem_append, List.mem_singleton] at hp
+        simp only [bodyStep, List.getElem?_set]
+        rcases hp with hp | rfl
+        · have hd := h.done_of_out p hp
+          by_cases hpt : t = p.1
+          · have hlen : p.1 < s.pcs.length := by
+              rcases Nat.lt_or_ge p.1 s.pcs.length with h' | h'
+              · exact h'
+              · rw [List.getElem?_eq_none h'] at hd; cases hd
+            simp [hpt, hlen]
+          · simp [hpt, hd]
+        · have hlen : t < s.pcs.length := by
+            rcases Nat.lt_or_ge t s.pcs.length with h' | h'
+            · exact h'
+            · rw [List.getElem?_eq_none h'] at hpc; cases hpc
+          simp [hlen]
+      · simp only [bodyStep, List.map_append, List.map_cons, List.map_nil]
+        rw [List.nodup_append]
+        refine ⟨h.nodup, by simp, ?_⟩
+        intro a ha b hb
+        simp only [List.mem_singleton] at hb
+        subst hb
+        intro hab
+        exact hnot (hab ▸ ha)
+      · intro p hp
+        simp only [bodyStep, List.mem_append, List.mem_singleton] at hp
+        rcases hp with hp | rfl
+        · exact h.valid p hp
+        · exact hlt
+    · exact h
+  · exact h
+
+theorem inv_run (calls : List Notif) (sched : List Nat) : Inv calls (runSched calls sched) := by
+  unfold runSched
+  have : ∀ s, Inv calls s → Inv calls (sched.foldl (sstep calls) s) := by
+    induction sched with
+    | nil => intro s h; exact h
+    | cons t rest ih => intro s h; exact ih _ (inv_step calls s t h)
+  exact this _ (inv_start calls)
+
+/-- Linearisation, for **every schedule**: each call is answered at most once, and the answers
+    are exactly those of the sequential run of the answered calls in the order in which they
+    took the mutex. -/
+theorem schedule_linearises (calls : List Notif) (sched : List Nat) :
+    let s := runSched calls sched
+    (s.outs.map (·.1)).Nodup ∧
+    s.outs.map (·.2) = runFrom init (order calls s) ∧
+    s.st = finalFrom init (order calls s) :=
+  let h := inv_run calls sched
+  ⟨h.nodup, h.outs_eq, h.st_eq⟩
+
+/-- …hence, for every schedule, the requests the node starts signing for have strictly
+    increasing start blocks (at most once, never an older one), however the goroutines race. -/
+theorem schedule_accepted_increasing (calls : List Notif) (sched : List Nat)
+    (hd : ∀ n ∈ calls, 1 ≤ n.blk) :
+    (accepted (order calls (runSched calls sched))).Pairwise (· < ·) := by
+  apply accepted_strictly_increasing
+  intro n hn
+  unfold order at hn
+  obtain ⟨p, -, hp⟩ := List.mem_filterMap.1 hn
+  exact hd n (List.mem_of_getElem? hp)
 
 /-- The domain guard is needed: a request at start block 0 leaves the state "empty". -/
 theorem block0_duplicate_accepted :
